@@ -339,8 +339,12 @@ class HTTPRequestParser:
                     "Transfer-Encoding requested is not supported."
                 )
 
+            # Expect is a list-valued field; a client (or an intermediary
+            # joining repeated fields) may send "100-continue, 100-continue"
             expect = headers.get("EXPECT", "").lower()
-            self.expect_continue = expect == "100-continue"
+            self.expect_continue = "100-continue" in [
+                e.strip(" \t") for e in expect.split(",")
+            ]
 
             if connection.lower() == "close":
                 self.connection_close = True
